@@ -97,10 +97,17 @@ def _check(pid, tier, seed, runs, budget, info, scratch, t0):
         print("VIOLATION property=%s replay=%s" % (pid, v["replay"]))
         print("  op=%s class=%s detail=%s" % (v["signature"].get("op"), v["signature"].get("class"),
                                              json.dumps(v["violation"])[:500]))
+    p5 = parallel_dispatchers()
+    p5_info = {}
+    if pid == "C11" and p5:
+        tv, p5_info = numba_thread_differential(pid, seed, cat, p5, info)
+        for path, v in tv:
+            viols.append({"replay": path, "signature": {"op": v.get("op"), "class": v.get("class")}, "violation": v})
+            print("VIOLATION property=%s replay=%s" % (pid, path))
+            print("  real Numba worker threads (not simulation): %s" % json.dumps(v, default=str)[:500])
     wall = time.monotonic() - t0
     calls = int(agg.get("calls", 0))
     fam = merge_counters([s.get("by_family") for s in summaries])
-    p5 = parallel_dispatchers()
     ev = {
         "property_id": pid, "tier": tier, "seed": int(seed), "level": "exploration",
         "coverage": {
@@ -141,6 +148,7 @@ def _check(pid, tier, seed, runs, budget, info, scratch, t0):
             "known_findings_hit": known_hits,
             "duplicate_violation_reports": len(dups),
             "parallel_dispatchers_P5": p5,
+            "numba_real_thread_differential": p5_info,
             "numba_threads_clause": ("vacuous: 0 dispatchers compiled with parallel=True on the CPU path, so Numba "
                                      "runs every kernel on the calling thread") if not p5 else
                                     "parallel dispatchers present: thread-count clause NOT decided by simulation",
@@ -172,6 +180,37 @@ def _check(pid, tier, seed, runs, budget, info, scratch, t0):
     if errs or calls == 0:
         return 2
     return 0
+
+
+def numba_thread_differential(pid, seed, cat, p5, info):
+    """P5 found parallel=True dispatchers: the simulator cannot schedule Numba's native worker
+    threads, so run the labelled fallback (real threads, enlarged rasters, 1 vs 2/16 threads)."""
+    from . import worker_hist
+    from . import realthreads
+    firsts = {}
+    for e in cat["entries"]:
+        if e["backend"] == "numpy" and not e.get("expect_error") and not e["private"] \
+                and e["family"] not in ("viewshed", "local", "generators", "polygonize"):
+            firsts.setdefault((e["op"], util.canon(e["params"])[:60]), e)
+    entries = list(firsts.values())[:60]
+    val, err = worker_hist.in_child(lambda: realthreads.numba_threads_differential(cat, entries), timeout=1500)
+    out_info = {"parallel_dispatchers": p5, "entries_tried": len(entries),
+                "note": "observation of real Numba threads on enlarged rasters; not simulation; a clean result is not evidence"}
+    if err:
+        out_info["error"] = err[-400:]
+        return [], out_info
+    found, checked = val
+    out_info["entries_checked"] = checked
+    res = []
+    os.makedirs(replay_dir(), exist_ok=True)
+    for v, pool in found:
+        e = next(x for x in cat["entries"] if x["id"] == v["entry"])
+        path = os.path.join(replay_dir(), "%s-s%d-numba-threads-e%d.json" % (pid, seed, v["entry"]))
+        util.dump_file(path, {"property": pid, "engine": "numba_threads", "entry": e, "pool": pool,
+                              "violation": v, "info": info,
+                              "note": "real Numba worker threads, not simulation; replay repeats the 1-vs-N thread comparison"})
+        res.append((path, v))
+    return res, out_info
 
 
 def zygote_crosscheck(pid, seed, tier, cat, refs, n=16):
@@ -226,6 +265,25 @@ def parallel_dispatchers():
 def replay(path):
     rep = util.load_file(path)
     pid = rep["property"]
+    if rep.get("engine") == "numba_threads":
+        from . import realthreads, worker_hist
+        cat = {"pool": rep["pool"], "entries": [rep["entry"]]}
+
+        def job():
+            # the pool in the file is already enlarged: compare 1 thread against 2 and 16, 20 repetitions
+            realthreads.enlarge_entry = lambda c, e, target=None: c["pool"]
+            return realthreads.numba_threads_differential(cat, [rep["entry"]], reps=20)
+        val, err = worker_hist.in_child(job, 1800)
+        if err:
+            print("HARNESS-ERROR " + err[-1000:])
+            return 2
+        found, _ = val
+        if found:
+            print("VIOLATION property=%s replay=%s" % (pid, path))
+            print("  real Numba worker threads (not simulation): %s" % json.dumps(found[0][0], default=str)[:500])
+            return 1
+        print("replay (1 vs 2/16 Numba threads, 20 repetitions) did not reproduce; the recorded violation was probabilistic")
+        return 0
     scratch = tempfile.mkdtemp(prefix="verif-replay-")
     try:
         cat = rep["catalogue"]
